@@ -12,6 +12,7 @@
 
 use proc_macro2::{Delimiter, Group, TokenStream, TokenTree};
 use std::collections::HashMap;
+use quote::ToTokens as _;
 use std::fmt::Write as _;
 use syn::{
     BinOp, Block, Expr, Fields, FnArg, GenericArgument, GenericParam, ImplItem, Item, ItemImpl, ItemStruct, Lit,
@@ -4133,6 +4134,96 @@ fn expand_file(file: &syn::File, which: usize) -> Vec<Item> {
     out
 }
 
+fn lean_str(s: &str) -> String {
+    s.replace('\\', "\\\\").replace('"', "\\\"").replace('\n', " ")
+}
+
+/// `# [doc = "…"]` attributes taken out of a token string
+fn strip_docs(s: &str) -> String {
+    let mut out = String::new();
+    let b: Vec<char> = s.chars().collect();
+    let pat: Vec<char> = "# [doc = \"".chars().collect();
+    let mut i = 0;
+    while i < b.len() {
+        if b[i..].starts_with(&pat[..]) {
+            // skip to the closing quote (escapes honoured), then to `]`
+            let mut j = i + pat.len();
+            while j < b.len() && b[j] != '"' {
+                if b[j] == '\\' {
+                    j += 1;
+                }
+                j += 1;
+            }
+            while j < b.len() && b[j] != ']' {
+                j += 1;
+            }
+            i = j + 1;
+            while i < b.len() && b[i] == ' ' {
+                i += 1;
+            }
+            continue;
+        }
+        out.push(b[i]);
+        i += 1;
+    }
+    out
+}
+
+/// (name, token text) of every item of a file: functions, types, and the methods of impls / traits one by one
+fn pin_items(items: &[Item]) -> Vec<(String, String)> {
+    let mut out: Vec<(String, String)> = vec![];
+    let tok = |t: &dyn quote::ToTokens| -> String { strip_docs(&t.to_token_stream().to_string()) };
+    for it in items {
+        match it {
+            Item::Use(_) => {}
+            Item::Mod(m) => {
+                let is_test = m.attrs.iter().any(|a| a.to_token_stream().to_string().contains("test"));
+                if !is_test {
+                    if let Some((_, inner)) = &m.content {
+                        for (n, t) in pin_items(inner) {
+                            out.push((format!("mod {} :: {}", m.ident, n), t));
+                        }
+                    }
+                }
+            }
+            Item::Fn(f) => out.push((format!("fn {}", f.sig.ident), tok(f))),
+            Item::Struct(x) => out.push((format!("struct {}", x.ident), tok(x))),
+            Item::Enum(x) => out.push((format!("enum {}", x.ident), tok(x))),
+            Item::Type(x) => out.push((format!("type {}", x.ident), tok(x))),
+            Item::Impl(im) => {
+                let head = format!(
+                    "impl {}{}",
+                    im.trait_.as_ref().map(|t| format!("{} for ", show_full(&t.0))).unwrap_or_default(),
+                    show_full(&im.self_ty)
+                );
+                let mut header = format!("{} {}", show_full(&im.generics), head);
+                if let Some(w) = &im.generics.where_clause {
+                    header += &format!(" {}", show_full(w));
+                }
+                out.push((format!("{} (header)", head), strip_docs(&header)));
+                for ii in &im.items {
+                    match ii {
+                        ImplItem::Fn(f) => out.push((format!("{} :: fn {}", head, f.sig.ident), tok(f))),
+                        other => out.push((format!("{} :: item", head), tok(other))),
+                    }
+                }
+            }
+            Item::Trait(tr) => {
+                for ti in &tr.items {
+                    let n = match ti {
+                        syn::TraitItem::Fn(f) => format!("trait {} :: fn {}", tr.ident, f.sig.ident),
+                        _ => format!("trait {} :: item", tr.ident),
+                    };
+                    out.push((n, tok(ti)));
+                }
+            }
+            Item::Macro(m) => out.push((format!("macro {}", m.ident.as_ref().map(|i| i.to_string()).unwrap_or_else(|| last_seg(&m.mac.path))), tok(m))),
+            other => out.push(("item".to_string(), tok(other))),
+        }
+    }
+    out
+}
+
 fn main() {
     let a: Vec<String> = std::env::args().collect();
     if a.len() < 3 {
@@ -4400,6 +4491,32 @@ fn main() {
         lean += &body;
         writeln!(lean, "end Rx.Gen.Derived").unwrap();
         let p = out.join("Derived.lean");
+        if std::fs::read_to_string(&p).unwrap_or_default() != lean {
+            std::fs::write(&p, lean).unwrap();
+        }
+    }
+    // transcription pins: the token text of every item of the files whose Lean model is a HAND transcription
+    for (module, file) in table::PINS {
+        let text = std::fs::read_to_string(src.join(file)).unwrap_or_default();
+        let mut lean = String::new();
+        writeln!(lean, "/- GENERATED by /verif/rs2lean from src/{} (token text of every item, doc comments and test modules dropped) — do not edit. -/", file).unwrap();
+        writeln!(lean, "namespace Rx.Gen.Pin{}\n", module).unwrap();
+        match syn::parse_file(&text) {
+            Ok(f) => {
+                let items = pin_items(&f.items);
+                for (k, (n, t)) in items.iter().enumerate() {
+                    writeln!(lean, "def item_{} : String × String := (\"{}\", \"{}\")", k, lean_str(n), lean_str(t)).unwrap();
+                }
+                let names: Vec<String> = (0..items.len()).map(|k| format!("item_{}", k)).collect();
+                writeln!(lean, "\ndef items : List (String × String) := [{}]\n", names.join(", ")).unwrap();
+            }
+            Err(e) => {
+                failed += 1;
+                writeln!(lean, "-- TRANSLATION FAILED: cannot parse {}: {}", file, e).unwrap();
+            }
+        }
+        writeln!(lean, "end Rx.Gen.Pin{}", module).unwrap();
+        let p = out.join(format!("Pin{}.lean", module));
         if std::fs::read_to_string(&p).unwrap_or_default() != lean {
             std::fs::write(&p, lean).unwrap();
         }
